@@ -614,8 +614,99 @@ def r612(ctx, fx):
         ctx.fail_closed(rid, "parser functions scanned: %d, with a `k` tag: %d (the mnemonic `brk` was counted)" % (n, sites))
 
 
+def r613(ctx, fx):
+    rid = ctx.rule("R6.13", "spans index the text they were made from: every diagnostic, `.file` and listing slices `File::source()` at offsets the parser counted, "
+                   "so the text the parser runs over (the first argument of LocatedSpan::new_extra) is that stored text itself — copied or borrowed, never shortened, "
+                   "trimmed or replaced. A prefix taken off (a byte order mark) moves every span three bytes to the left, and the first span edge that falls inside "
+                   "a multi-byte character panics in File::find_line_col")
+    sites = []
+    for f in sorted(fx.all_fns("mos_core"), key=lambda f: f.path):
+        if f.kind == "closure" or not f.d.get("hir") or "::tests::" in f.path or "::test::" in f.path or not f.path.startswith("mos_core::parser::"):
+            continue
+        for x, p in lib.hir_calls(f.hir["body"]):
+            if p and p.endswith(("LocatedSpan::<T, X>::new_extra", "::new_extra")) and x.get("k") == "call":
+                sites.append((f, x))
+    if not sites:
+        ctx.fail_closed(rid, "no construction of the parser's input (LocatedSpan::new_extra) found in the parser")
+        return
+    OK = ("::deref", "::as_str", "::as_ref", "::borrow", "::to_string", "::to_owned", "::clone", "::into", "::from")
+    n_src = 0
+    for f, x in sites:
+        lets = {}
+        for n in lib.hwalk(f.hir["body"]):
+            if n.get("k") in ("let", "letx") and "init" in n and n["pat"].get("k") == "bind":
+                lets.setdefault(n["pat"]["name"], []).append(n["init"])
+        chain = []
+        todo = [lib.strip(lib.hargs(x)[0])]
+        seen = set()
+        while todo and len(chain) < 12:
+            e = todo.pop()
+            chain.append(e)
+            for y in lib.hwalk(e):
+                nm = lib.hpath(y) if y.get("k") == "path" else None
+                if nm in lets and nm not in seen:
+                    seen.add(nm)
+                    todo.extend(lib.strip(i) for i in lets[nm])
+        callees = [p for c in chain for _, p in lib.hir_calls(c) if p]
+        from_source = any(lib.pm(p, "File::source") for p in callees)
+        others = [p for p in callees if not lib.pm(p, "File::source") and not p.endswith(OK)]
+        sliced = any(y.get("k") == "index" for c in chain for y in lib.hwalk(c))
+        key = "%s|parser-input" % f.path
+        ctx.inst(rid, key, sample={"fn": f.path, "line": x.get("ln"), "from_File_source": from_source, "through": sorted({p.rsplit("::", 1)[-1] for p in callees})})
+        if not from_source:
+            # a parser for text that is in no file (an expression typed into the debugger): its spans index nothing that is stored
+            continue
+        n_src += 1
+        if others or sliced:
+            ctx.finding(rid, key, "%s hands the parser another text than the one the code map stores for the file (%s): every span is an offset into the text that was "
+                        "parsed, and is used as an offset into the text that is stored — locations are off, and an edge that lands inside a character of several "
+                        "bytes panics where a diagnostic or a listing looks it up" % (
+                            f.path.rsplit("::", 1)[-1], ", ".join(sorted({p.rsplit("::", 1)[-1] for p in others})) or "a slice"), "%s:%s" % (f.file, x.get("ln")))
+    if n_src < 1:
+        ctx.fail_closed(rid, "no parser input that comes from File::source() found")
+
+
+def r614(ctx, fx):
+    rid = ctx.rule("R6.14", "a function of the expression language gets the evaluator and evaluates its own arguments with it, and an argument may call the same function "
+                   "(`ram(ram($fb))`, `defined(defined(x))`): the call of FunctionCallback::apply is not made on a lock guard — std's Mutex is not re-entrant, the inner "
+                   "call would wait for the outer one on the same thread, and the assembler or the test runner never ends")
+    n = 0
+    for f in sorted(list(fx.all_fns("mos_core")) + list(fx.all_fns("mos")), key=lambda f: f.path):
+        if f.kind == "closure" or not f.d.get("hir") or "::tests::" in f.path:
+            continue
+        lets = {}
+        for y in lib.hwalk(f.hir["body"]):
+            if y.get("k") in ("let", "letx") and "init" in y and y["pat"].get("k") == "bind":
+                lets.setdefault(y["pat"]["name"], []).append(y["init"])
+        for x in lib.hwalk(f.hir["body"]):
+            if not (x.get("k") == "mcall" and x.get("name") == "apply" and str(x.get("path", "")).endswith("FunctionCallback::apply")):
+                continue
+            n += 1
+            chain, todo, seen = [], [lib.strip(x["recv"])], set()
+            while todo and len(chain) < 10:
+                e = todo.pop()
+                chain.append(e)
+                for y in lib.hwalk(e):
+                    nm = lib.hpath(y) if y.get("k") == "path" else None
+                    if nm in lets and nm not in seen:
+                        seen.add(nm)
+                        todo.extend(lib.strip(i) for i in lets[nm])
+            locked = any(y.get("k") == "mcall" and y.get("name") in ("lock", "try_lock", "write") for c in chain for y in lib.hwalk(c)) or \
+                "MutexGuard" in str(lib.strip(x["recv"]).get("ty", "")) + str(lib.strip(x["recv"]).get("aty", ""))
+            key = "%s|apply#%d" % (f.path, n)
+            ctx.inst(rid, key, sample={"fn": f.path, "line": x.get("ln"), "receiver_is_a_lock_guard": locked})
+            if locked:
+                ctx.finding(rid, key, "%s calls a function of the expression language while holding the lock it is kept behind: an argument that calls the same function "
+                            "(`ram(ram($fb))` in an assertion, `defined(defined(x))`) locks it again on the same thread and waits for ever" % f.path.rsplit("::", 1)[-1],
+                            "%s:%s" % (f.file, x.get("ln")))
+    if n < 1:
+        ctx.fail_closed(rid, "no call of FunctionCallback::apply found")
+
+
 def run(ctx):
     fx = ctx.facts
+    r613(ctx, fx)
+    r614(ctx, fx)
     T = taint.Taint(fx, "USERINT", source_calls=USERINT_SOURCES, source_fields=USERINT_FIELDS, carrier=taint.INT_CARRIER)
     ctx.extra["taint_userint"] = {"functions_with_labelled_locals": sum(1 for v in T.t.values() if v), "labelled_fields": sorted("%s.%s" % k for k in T.fields)}
     # scope of C06: parsing, assembling (build and the language server's analysis mode), formatting, listing generation, output
